@@ -21,6 +21,7 @@ import Mathlib.Analysis.Real.Sqrt
 import Mathlib.Tactic.Positivity
 import Sb.Proofs.PolyCalculus
 import Sb.Properties.C01
+import Sb.Proofs.CertSound
 
 namespace Sb.C18
 open Sb Sb.Poly Sb.Spec Sb.Proofs
